@@ -10,7 +10,7 @@ import numpy as np
 
 ID = "C03"
 SHARDS = {"quick": 8, "thorough": 16}
-BUDGET = {"quick": 40, "thorough": 420}
+BUDGET = {"quick": 300, "thorough": 1800}
 RULE = ("random (obs, ens) with n in 1..40 forecasts (..400 thorough), m in 1..30 "
         "members (..200 thorough); values on the k/4 and k/64 lattices (exact "
         "member-member and member-observation ties), observations below / above "
